@@ -201,6 +201,8 @@ class Prop(Check):
         "Obj.C06_siblings_ordered",
         "Obj.C06_location",
         "Obj.C06_location_nchar",
+        "Obj.C06_span_in_input",
+        "Obj.C06_location_built",
     ]
     DRIVER = "Drivers/Obj.lean"
     QUICK_CASES = 380
